@@ -416,6 +416,17 @@ impl CoreDocument {
     if self.resolve_method(method.id(), None).is_some() || self.service().query(method.id()).is_some() {
       return Err(Error::MethodInsertionError);
     }
+    // The lookup above gives up at a method reference that does not resolve. Compare the identifiers directly as
+    // well, so that neither a second embedded method with this id nor a reference aliasing an embedded method can
+    // come into being.
+    if self.all_methods().any(|existing| existing.id() == method.id())
+      || (scope != MethodScope::VerificationMethod
+        && self
+          .verification_relationships()
+          .any(|method_ref| method_ref.id() == method.id()))
+    {
+      return Err(Error::MethodInsertionError);
+    }
     match scope {
       MethodScope::VerificationMethod => self.data.verification_method.append(method),
       MethodScope::VerificationRelationship(MethodRelationship::Authentication) => {
